@@ -1,8 +1,12 @@
 package main
 
 import (
+	"crypto"
+	"crypto/rand"
+	"crypto/rsa"
 	"crypto/tls"
 	"crypto/x509"
+	"encoding/json"
 	"fmt"
 	"net/http"
 	"net/http/httptest"
@@ -13,6 +17,8 @@ import (
 	"testing"
 
 	"github.com/Cloud-Foundations/golib/pkg/log/testlogger"
+	"github.com/go-jose/go-jose/v4"
+	"golang.org/x/crypto/ssh"
 	"golang.org/x/time/rate"
 )
 
@@ -47,6 +53,71 @@ func vfSealDigest(status int, state *RuntimeState) string {
 	defer state.Mutex.Unlock()
 	return fmt.Sprintf("%d %s %s %d %d %d", status, vfBool(state.Signer != nil), vfBool(state.Ed25519Signer != nil),
 		len(state.KeymasterPublicKeys), len(state.caCertDer), len(state.SignerIsReady))
+}
+
+// the keys the two CA files hold (learnt once by unsealing a scratch state) and a foreign key
+var vfC09SignerPub, vfC09EdPub, vfC09ForeignPub crypto.PublicKey
+
+func vfHasKey(keys []crypto.PublicKey, k crypto.PublicKey) bool {
+	fp, err := getKeyFingerprint(k)
+	if err != nil {
+		return false
+	}
+	for _, x := range keys {
+		if f, err := getKeyFingerprint(x); err == nil && f == fp {
+			return true
+		}
+	}
+	return false
+}
+
+// vfServedKeys: is k in what /public/sshca and the JWKS document serve?
+func vfServedKeys(state *RuntimeState, k crypto.PublicKey) (sshca, jwks bool) {
+	rr, p := vfServe(state.publicPathHandler, httptest.NewRequest("GET", publicPath+"sshca", nil))
+	if p == nil && rr.Code == 200 {
+		if sp, err := ssh.NewPublicKey(k); err == nil {
+			sshca = strings.Contains(rr.Body.String(), strings.TrimSpace(string(ssh.MarshalAuthorizedKey(sp))))
+		}
+	}
+	rr, p = vfServe(state.idpOpenIDCJWKSHandler, httptest.NewRequest("GET", idpOpenIDCJWKSPath, nil))
+	if p == nil && rr.Code == 200 {
+		var set jose.JSONWebKeySet
+		if json.Unmarshal(rr.Body.Bytes(), &set) == nil {
+			if fp, err := getKeyFingerprint(k); err == nil {
+				for _, jk := range set.Key(fp) {
+					if pk, ok := jk.Key.(interface{ Equal(crypto.PublicKey) bool }); ok && pk.Equal(k) {
+						jwks = true
+					}
+				}
+			}
+		}
+	}
+	return
+}
+
+// vfSealDigest2 = vfSealDigest + `in=<signer key published?><ed key published?>` (compared with the
+// model) + ` served=<sshca+jwks carry every key that signs: 1|0|->` (judged)
+func vfSealDigest2(status int, state *RuntimeState) string {
+	d := vfSealDigest(status, state)
+	state.Mutex.Lock()
+	keys := append([]crypto.PublicKey{}, state.KeymasterPublicKeys...)
+	signer, ed := state.Signer, state.Ed25519Signer
+	state.Mutex.Unlock()
+	in := vfBool(vfHasKey(keys, vfC09SignerPub)) + vfBool(vfHasKey(keys, vfC09EdPub))
+	served := "-"
+	if signer != nil {
+		served = "1"
+		for _, sg := range []crypto.Signer{signer, ed} {
+			if sg == nil {
+				continue
+			}
+			a, b := vfServedKeys(state, sg.Public())
+			if !a || !b {
+				served = "0"
+			}
+		}
+	}
+	return d + " in=" + in + " served=" + served
 }
 
 func vfInjectReq(kind string, chain []*x509.Certificate) (*http.Request, bool) {
@@ -104,6 +175,18 @@ func TestVerifC09(t *testing.T) {
 		s.SignerIsReady = make(chan bool, 64)
 		return s
 	}
+	{ // learn the keys inside the CA files
+		s0 := newSealed(true)
+		if err := s0.unsealCA([]byte("password"), "verif"); err != nil {
+			t.Fatal(err)
+		}
+		vfC09SignerPub, vfC09EdPub = s0.Signer.Public(), s0.Ed25519Signer.Public()
+		fk, err := rsa.GenerateKey(rand.Reader, 2048)
+		if err != nil {
+			t.Fatal(err)
+		}
+		vfC09ForeignPub = fk.Public()
+	}
 	chain := []*x509.Certificate{shapes.certs["km"], shapes.kmCA}
 	for _, line := range vio.ops {
 		f := strings.Fields(line)
@@ -128,6 +211,35 @@ func TestVerifC09(t *testing.T) {
 		case "reset":
 			st = newSealed(len(f) > 1 && f[1] == "1")
 			vio.emit("%s", vfSealDigest(0, st))
+		case "reset2": // reset2 <ed> <preloaded keymaster_public_keys: letters of s(igner) e(d25519) f(oreign), or ->
+			if len(f) != 3 {
+				vio.emit("bad-op")
+				continue
+			}
+			st = newSealed(f[1] == "1")
+			for _, ch := range f[2] {
+				switch ch {
+				case 's':
+					st.KeymasterPublicKeys = append(st.KeymasterPublicKeys, vfC09SignerPub)
+				case 'e':
+					st.KeymasterPublicKeys = append(st.KeymasterPublicKeys, vfC09EdPub)
+				case 'f':
+					st.KeymasterPublicKeys = append(st.KeymasterPublicKeys, vfC09ForeignPub)
+				}
+			}
+			vio.emit("%s", vfSealDigest2(0, st))
+		case "inj2":
+			req, ok := vfInjectReq(f[1], chain)
+			if st == nil || !ok {
+				vio.emit("bad-op")
+				continue
+			}
+			rr, p := vfServe(st.secretInjectorHandler, req)
+			if p != nil {
+				vio.emit("panic")
+				continue
+			}
+			vio.emit("%s", vfSealDigest2(rr.Code, st))
 		case "inj":
 			req, ok := vfInjectReq(f[1], chain)
 			if st == nil || !ok {
